@@ -18,7 +18,12 @@ TRUSTED = [
     "translator/c18.py (to_dict/from_dict key tables of CCD/CMOS/MKID/APD, Detector.from_dict dispatch, Photon sub-keys "
     "and escaping; that every comprehension of to_asdf / Scene.to_dict / Scene.from_dict / Photon.to_dict / from_dict keeps "
     "EVERY entry and converts with a plain .to_dict(); pass-through shape of backends/asdf.py and whether the cluster "
-    "table's row labels are stored and read back; body shapes of load_detector and save_detector; fails closed)",
+    "table's row labels are stored and read back; body shapes of load_detector and save_detector; fails closed); "
+    "translator/c18_norm.py (the functions are read in a NORMAL FORM: module constants resolved, private package helpers "
+    "inlined, single-binding local aliases substituted unless a later store touches what they read, match / local dispatch "
+    "dict -> if-chain, guard-clause form, filling loops -> comprehensions, conditional assignments -> conditional "
+    "expressions, literal loops unrolled, getattr/setattr with literal names; checked by executing the normal forms in "
+    "place of the originals under the repository's tests: translator/c18_norm_exec.py)",
     "correspondence harness: harness/props/c18.py generators, harness/drivers/c18.py, probes/verif_probes_c18.py "
     "(structural canonical form: every group of a tree, variables / coordinates with dims in order, dtype, shape, values, "
     "attributes of groups / variables / coordinates; floats compared as binary64 bit patterns)",
@@ -473,6 +478,10 @@ def pipeline_cases(ctx: Ctx, r, per_kind):
             if j % 2 == 1 or j == 0:
                 # save_detector as a MODEL (in any group) writes the file; the loading pipeline first fills its detector
                 case.update(save="model", save_group=groups[(j + KINDS.index(kind)) % len(groups)], fill_running=True)
+            if j % 2 == 0:
+                # the model is executed in several readout steps of one exposure (the same unchanged file is loaded again
+                # after the detector was emptied): the LAST probe / the final state must still show the file's content
+                case["times"] = [1.0, 2.0] if j else [1.0, 2.0, 3.0]
             cases.append(case)
             if j == 0:
                 cases.append(dict(case, save=None, fill_running=True))
@@ -844,6 +853,7 @@ def account(ctx, units):
         if p["route"] == "pipeline":
             ctx.dist("pipeline_file_written_by", "save_detector model" if p.get("save") == "model" else "Detector.save")
             ctx.dist("pipeline_group", p.get("group"))
+            ctx.dist("pipeline_readout_steps", len(p.get("times") or [1.0]))
         ctx.dist("route", p["route"])
         ctx.dist("kind", p["spec"]["kind"])
         ctx.dist("n_initialised", len(p["spec"].get("init", {})))
